@@ -31,11 +31,27 @@ func (p *vPipe) Close()                              { p.closed++; vLogClose++ }
 func (p *vPipe) Init(s *supervisor.Spec, m context.MuxMapper) {
 	p.inits++
 	vLogInit++
+	p.bind(s)
 }
 func (p *vPipe) Inherit(s *supervisor.Spec, prev supervisor.Object, m context.MuxMapper) {
 	p.inherits++
 	p.prev = prev
 	vLogInherit++
+	p.bind(s)
+}
+
+// vPipeSpec: the typed spec of the object. As the real Pipeline (flow nodes bound to their
+// filter instances) and HTTPServer (compiled header patterns) do, the running object keeps
+// run-time state in unexported fields of its own typed spec.
+type vPipeSpec struct {
+	Rev   int64
+	bound *vPipe
+}
+
+func (p *vPipe) bind(s *supervisor.Spec) {
+	if ps, ok := s.ObjectSpec().(*vPipeSpec); ok {
+		ps.bound = p
+	}
 }
 func (p *vPipe) Handle(ctx *context.Context) string { return p.name }
 
@@ -43,6 +59,7 @@ func vEntity(name string, gen int, rev int64) (*supervisor.ObjectEntity, *vPipe)
 	spec := &supervisor.Spec{}
 	verifSetField(spec, "meta", &supervisor.MetaSpec{Name: name, Kind: "VPipe"})
 	verifSetField(spec, "rawSpec", map[string]interface{}{"name": name, "rev": rev})
+	verifSetField(spec, "objectSpec", interface{}(&vPipeSpec{Rev: rev}))
 	pipe := &vPipe{name: name, gen: gen}
 	e := &supervisor.ObjectEntity{}
 	verifSetField(e, "spec", spec)
@@ -109,7 +126,8 @@ func verifC11_TrafficController() {
 	case 0:
 		verifAssert(h2.(*vPipe) == pa2 && pa2.inherits == 1 && pa2.prev == supervisor.Object(pa) && pa2.inits == 0, "update-inherits-once-from-previous-generation")
 	case 1:
-		same := verifGetField(ea2, "spec").(*supervisor.Spec).Equals(verifGetField(ea, "spec").(*supervisor.Spec))
+		// the configuration applied is the one already running iff its content (revision) is
+		same := vRev(ea2) == vRev(ea)
 		if same {
 			verifAssert(h2.(*vPipe) == pa && pa2.inits == 0 && pa2.inherits == 0, "apply-of-unchanged-spec-is-a-no-op")
 			verifCover("unchanged-apply")
@@ -140,4 +158,8 @@ func verifC11_TrafficController() {
 	tc.CreateTrafficGate(ns, en)
 	hn, okn := tc.namespaces[ns].GetHandler("a")
 	verifAssert(okn && hn != nil, "a-new-traffic-gate-resolves-the-surviving-pipeline")
+}
+
+func vRev(e *supervisor.ObjectEntity) int64 {
+	return verifGetField(e, "spec").(*supervisor.Spec).RawSpec()["rev"].(int64)
 }
